@@ -13,12 +13,12 @@ IMPL_SUBLINE_FOLLOWS_TITLE = True    # deviation flag: the subline of a figure d
 JUDGE = ["C16_OnePerPage", "C16_Kind", "C16_Pixels", "C16_Goal", "C16_Bytes", "C16_Captions"]
 B = {False, True}
 PL3 = {"first", "last", "all"}
-GEN = {"quick": [dict(name="small", consts=dict(NSet={1, 3}, LenSet={1, 2, 4}, PlaceSet=PL3, BoolSet=B, KindSet={"png"}, ReuseSet={False})),
-                 dict(name="sim", consts=dict(NSet={1, 2, 3, 4, 5, 6}, LenSet={1, 2, 3, 4, 5, 6, 7}, PlaceSet=PL3, BoolSet=B, KindSet={"png", "jpeg", "emf"}, ReuseSet={False, True}), simulate=600)],
-       "thorough": [dict(name="small", consts=dict(NSet={1, 2, 3, 4}, LenSet={1, 2, 3, 4, 5}, PlaceSet=PL3, BoolSet=B, KindSet={"png"}, ReuseSet={False})),
-                    dict(name="sim", consts=dict(NSet={1, 2, 3, 4, 5, 6}, LenSet={1, 2, 3, 4, 5, 6, 7}, PlaceSet=PL3, BoolSet=B, KindSet={"png", "jpeg", "emf"}, ReuseSet={False, True}), simulate=10000)]}
+GEN = {"quick": [dict(name="small", consts=dict(NSet={1, 3}, LenSet={1, 2, 4}, PlaceSet=PL3, BoolSet=B, KindSet={"png"}, ReuseSet={False}, SameSet={"none"})),
+                 dict(name="sim", consts=dict(NSet={1, 2, 3, 4, 5, 6}, LenSet={1, 2, 3, 4, 5, 6, 7}, PlaceSet=PL3, BoolSet=B, KindSet={"png", "jpeg", "emf"}, ReuseSet={False, True}, SameSet={"none", "dupfirst"}), simulate=600)],
+       "thorough": [dict(name="small", consts=dict(NSet={1, 2, 3, 4}, LenSet={1, 2, 3, 4, 5}, PlaceSet=PL3, BoolSet=B, KindSet={"png"}, ReuseSet={False}, SameSet={"none"})),
+                    dict(name="sim", consts=dict(NSet={1, 2, 3, 4, 5, 6}, LenSet={1, 2, 3, 4, 5, 6, 7}, PlaceSet=PL3, BoolSet=B, KindSet={"png", "jpeg", "emf"}, ReuseSet={False, True}, SameSet={"none", "dupfirst"}), simulate=10000)]}
 SIZES = {"quick": [0, 1, 15, 39, 40, 41, 80, 81, 300, 5000], "thorough": [0, 1, 15, 39, 40, 41, 80, 81, 300, 5000, 60000, 200000]}
-MODEL = dict(NSet={1, 2, 3}, LenSet={1, 2, 4}, PlaceSet=PL3, BoolSet=B, KindSet={"png", "emf"}, ReuseSet={False})
+MODEL = dict(NSet={1, 2, 3}, LenSet={1, 2, 4}, PlaceSet=PL3, BoolSet=B, KindSet={"png", "emf"}, ReuseSet={False}, SameSet={"none", "dupfirst"})
 MINV = ["M_OnePerPage", "M_Kind", "M_Pixels", "M_Goal", "M_Bytes", "M_Captions"]
 
 
